@@ -56,6 +56,9 @@ Props(stage, clause) ==
     [] stage = "DayEnd.yield"                        -> {"C06"}
     [] stage = "DayEnd.summary"                      -> {"C06"}
     [] stage = "Season.irrSum"                       -> {"C06"}
+    [] stage = "Season.fco2"                         -> {"C06", "C08"}
+    [] stage = "Season.cropConst"                    -> {"C05", "C12"}
+    [] stage = "Init.config" /\ clause = "crop"       -> {"C05"}
     [] stage = "DayEnd.finite"                       -> {"C16"}
     [] stage = "DayBegin.clock"                      -> {"C07"}
     [] stage = "DayBegin.weather"                    -> {"C15"}
@@ -97,7 +100,7 @@ St0 == [ws |-> [W |-> <<>>, pond |-> Z], fcAdj |-> <<>>, begin |-> [W |-> <<>>, 
                  finished |-> FALSE, nStats |-> 0],
         d |-> ZeroLedger, prev |-> [gddCum |-> Z, zroot |-> Z, hi |-> Z, hiadj |-> Z, b |-> Z, bns |-> Z],
         crop |-> [calendarType |-> 1], phash |-> [none |-> 0], seasonIrr |-> Z, irrSeason |-> -1,
-        stage |-> 0, ccadj |-> Z, ic0 |-> [none |-> 0], germ |-> FALSE, delayedCds |-> Z, delayedGdds |-> Z, irrCum |-> Z, exp |-> [none |-> 0], alive |-> TRUE, statIrr |-> Z, hasStat |-> FALSE, statKeys |-> <<>>]
+        stage |-> 0, ccadj |-> Z, ic0 |-> [none |-> 0], germ |-> FALSE, delayedCds |-> Z, delayedGdds |-> Z, irrCum |-> Z, exp |-> [none |-> 0], alive |-> TRUE, statIrr |-> Z, hasStat |-> FALSE, statKeys |-> <<>>, bprev |-> [known |-> FALSE, eff |-> FALSE, z |-> Z]]
 
 WsOf(s, e) == [W |-> IF Has(e, "W") THEN e.W ELSE s.ws.W, pond |-> IF Has(e, "pond") THEN e.pond ELSE s.ws.pond]
 
@@ -161,7 +164,8 @@ InitConfigC(t) ==
   IF Has(c, "user")
   THEN [ irr    |-> \A k \in DOMAIN c.user.irr : c.built.irr[k] = c.user.irr[k],
          field  |-> \A k \in DOMAIN c.user.field : c.built.field[k] = c.user.field[k],
-         fallow |-> \A k \in DOMAIN c.user.fallow : c.built.fallow[k] = c.user.fallow[k] ]
+         fallow |-> \A k \in DOMAIN c.user.fallow : c.built.fallow[k] = c.user.fallow[k],
+         crop   |-> Has(c.user, "crop") => \A k \in DOMAIN c.user.crop : c.built.crop[k] = c.user.crop[k] ]
   ELSE [ none |-> TRUE ]
 Chk_Initialize(t, s, e) == Tag("Init.dates", InitDatesC(t, e)) \cup Tag("Init.bounds", InitBoundsC(t, e)) \cup Tag("Init.config", InitConfigC(t))
 Upd_Initialize(t, s, e) ==
@@ -426,7 +430,10 @@ Chk_DayEnd(t, s, e) ==
                        \cup Tag("DayEnd.partition", DayPartitionC(k, s.begin, led)
                                    \* water can only have been standing (and be released) on a field that has bunds in some period
                                    @@ [ negInflNeedsBunds |-> (IsNeg(led.infl) /\ ~Near(led.infl, Z, Tol9)) =>
-                                                                (Cfg(t).field.effBunds \/ Cfg(t).fallow.effBunds) ])
+                                                                (Cfg(t).field.effBunds \/ Cfg(t).fallow.effBunds),
+                                        \* ... and only on the day the bunds ARE removed (or lowered): they stood on the previous simulated day
+                                        negInflOnRemovalDay |-> (IsNeg(led.infl) /\ ~Near(led.infl, Z, Tol9) /\ s.bprev.known) =>
+                                                                (s.bprev.eff /\ (~s.d.bundsToday \/ Lt(s.d.zBund, s.bprev.z))) ])
                        \cup Tag("DayEnd.bounds", DayBoundsC(k, s.ws, led))
                        \cup Tag("DayEnd.signs", DaySignsC(k, led))
                        \cup Tag("DayEnd.gw", DayGwC(k, s.ws, led))
@@ -445,7 +452,8 @@ Upd_DayEnd(t, s, e) ==
             !.seasonIrr = Add(s.seasonIrr, add),
             !.statIrr = IF newRow THEN e.lastStat.irr ELSE s.statIrr,
             !.hasStat = s.hasStat \/ newRow,
-            !.statKeys = IF Has(e, "statKeys") THEN e.statKeys ELSE s.statKeys]
+            !.statKeys = IF Has(e, "statKeys") THEN e.statKeys ELSE s.statKeys,
+            !.bprev = [known |-> TRUE, eff |-> s.d.bundsToday, z |-> s.d.zBund]]
 
 (***************************************************************************)
 (* Advance: check_model_is_finished + update_time (+ reset) against the      *)
@@ -474,13 +482,26 @@ ResetC(t, s, e) ==
          pond  |-> IF c.field.effBunds THEN Eq(ws.pond, Min(c.field.bundWater, c.field.zBund)) ELSE IsZero(ws.pond),
          counters |-> IsZero(e.irrCum) /\ IsZero(e.irrNetCum) /\ IsZero(e.gddCum) ]
   ELSE [ water |-> ~Has(e, "W"), pond |-> ~Has(e, "pond") ]
+\* the CO2 adjustment of the water productivity a season runs with is that of ITS planting year: the factor written at the season start equals
+\* the factor a fresh model started on that planting date computes at initialisation (the harness obtains it from the initialisation path)
+\* the season-independent crop parameters (limits of the envelope, productivity, temperatures) of every season are those of the configured crop
+ConstCropFields == {"CCx", "Zmin", "Zmax", "HI0", "dHI0", "Tbase", "Tupp", "WP", "WPy", "YldWC", "CC0", "Kcb"}
+SeasonCropConstC(t, s, e) ==
+  IF e.reset /\ Has(e, "crop") /\ Has(Cfg(t), "crop0")
+  THEN [f \in (ConstCropFields \cap DOMAIN e.crop \cap DOMAIN Cfg(t).crop0) |-> e.crop[f] = Cfg(t).crop0[f]]
+  ELSE [ none |-> TRUE ]
+SeasonFco2C(t, s, e) ==
+  IF e.reset /\ Has(e, "expFco2") /\ Has(e, "crop") THEN [ ofPlantingYear |-> Near(e.crop.fCO2, e.expFco2, Tol9) ] ELSE [ none |-> TRUE ]
 Chk_Advance(t, s, e) == Tag("Advance.clock", AdvanceClockC(t, s, e)) \cup Tag("Advance.visible", AdvanceVisibleC(t, s, e))
                         \cup Tag("Season.irrSum", SeasonIrrC(t, s, e)) \cup Tag("Params", ParamsC(t, s, e))
                         \cup Tag(IF e.reset /\ ~Cfg(t).offSeason THEN "Reset" ELSE "Carry", ResetC(t, s, e))
                         \cup Tag("Reset.fields", ResetFieldsC(t, s, e))
+                        \cup Tag("Season.fco2", SeasonFco2C(t, s, e))
+                        \cup Tag("Season.cropConst", SeasonCropConstC(t, s, e))
 Upd_Advance(t, s, e) ==
   [s EXCEPT !.ws = WsOf(s, e), !.clk = e.clock, !.phash = e.phash,
             !.crop = IF e.reset THEN e.crop ELSE s.crop,
+            !.bprev = IF e.reset /\ ~Cfg(t).offSeason THEN [known |-> FALSE, eff |-> FALSE, z |-> Z] ELSE s.bprev,
             !.seasonIrr = IF e.reset THEN Z ELSE s.seasonIrr,
             !.hasStat = IF e.reset THEN FALSE ELSE s.hasStat,
             !.stage = IF e.reset THEN 0 ELSE s.stage,
